@@ -613,7 +613,7 @@ def c09(prop, tier, seed, wd, explore, limit, kinds, we):
     ns = 30 if tier == "quick" else 500
     for i, (iname, S) in enumerate(block_inputs(prop, seed, tier)):
         for rep in range(2):
-            cases.append(PoolCase("blocks", "plain", gen.splitmix(seed, 20 + rep, i), ["--schedules", str(ns), "--delay-us", str([150, 400][rep])], iname, S))
+            cases.append(PoolCase("blocks", "plain", gen.splitmix(seed, 20 + rep, i), ["--schedules", str(ns), "--delay-us", str([150, 400][rep])] + (["--parallel-first"] if rep == 1 else []), iname, S))
         if i % 2 == 0 or tier == "thorough":
             cases.append(PoolCase("blocks", "tsan", gen.splitmix(seed, 23, i), ["--schedules", str(max(4, ns // 8)), "--delay-us", "100"], iname, S))
     # tens of thousands of tiny blocks of unequal sizes: blocks complete while the producer is still cutting and growing its tables
@@ -621,14 +621,14 @@ def c09(prop, tier, seed, wd, explore, limit, kinds, we):
     many = [("short%d" % k, gen.norm(set(bytes(r.choice(b"abcdefgh") for _ in range(r.randint(1, 7))) for _ in range(nn)))) for k, nn in enumerate([26000, 40000] if tier == "quick" else [26000, 40000, 90000, 150000])]
     for i, (iname, S) in enumerate(many):
         for rep, cuts in enumerate(["1", "6,9,14"]):
-            cases.append(PoolCase("blocks", "plain", gen.splitmix(seed, 26 + rep, i), ["--schedules", "3" if tier == "quick" else "12", "--delay-us", "0", "--cuts", cuts, "--threads", str([8, 16][(i + rep) % 2])], iname, S))
+            cases.append(PoolCase("blocks", "plain", gen.splitmix(seed, 26 + rep, i), ["--schedules", "3" if tier == "quick" else "12", "--delay-us", "0", "--cuts", cuts, "--threads", str([8, 16][(i + rep) % 2])] + (["--parallel-first"] if rep == 1 else []), iname, S))
     if limit:
         cases = cases[:limit]
     wall = run.run_pool_all(cases)
     rule = ("a case is one pool_driver process building the block dictionary of one input under N seeded schedules: cut size from one string per block to one block, overhead, 2-16 threads, delay plans at the block "
             "schedule points forcing reversed / rotated / random completion orders and a slow producer; each build is compared bytewise with the image of the single-threaded build, the block event chain "
             "(queued->begin->built->stored exactly once, all before return) and every locate/extract against the model; distinct = (input, seed), non-trivial = completed")
-    return conc_finish(prop, tier, seed, run, wall, rule, explore, we, ("blocks_ge2", "blocks_1", "blocks_eq_n", "blocks_ge1000", "order_not_input_order"), {"max_concurrent_builders": run.counters.get("max_concurrent_builders", 0)})
+    return conc_finish(prop, tier, seed, run, wall, rule, explore, we, ("blocks_ge2", "blocks_1", "blocks_eq_n", "blocks_ge1000", "order_not_input_order", "parallel_build_first"), {"max_concurrent_builders": run.counters.get("max_concurrent_builders", 0)})
 
 @register("C11")
 def c11(prop, tier, seed, wd, explore, limit, kinds, we):
@@ -640,7 +640,7 @@ def c11(prop, tier, seed, wd, explore, limit, kinds, we):
         if len(S) < 4:
             continue
         for rep in range(2 if tier == "quick" else 4):   # race reports vary run to run: repeat
-            cases.append(PoolCase("blocks", "tsan", gen.splitmix(seed, 30 + rep, i), ["--schedules", str(ns), "--delay-us", str([0, 120, 300, 50][rep])], iname, S))
+            cases.append(PoolCase("blocks", "tsan", gen.splitmix(seed, 30 + rep, i), ["--schedules", str(ns), "--delay-us", str([0, 120, 300, 50][rep])] + (["--parallel-first"] if rep % 2 == 0 else []), iname, S))
     for k in range(8 if tier == "quick" else 32):
         cases.append(PoolCase("pool", "tsan", gen.splitmix(seed, 40, k), ["--lifecycles", str(80 if tier == "quick" else 2000), "--delay-us", str([0, 100][k % 2]), "--window", "0"]))
     if limit:
@@ -649,7 +649,7 @@ def c11(prop, tier, seed, wd, explore, limit, kinds, we):
     rule = ("a case is one pool_driver process of the ThreadSanitizer flavor: block dictionaries built with 2-16 threads over inputs giving >= 2 blocks (every worker runs Re-Pair, hashing and DAC construction "
             "at the same time) under seeded delay plans, and pool lifecycles whose tasks touch only their own state; TSan report blocks are counted and de-duplicated by the pair of top repository frames; "
             "distinct = (input, seed), non-trivial = completed")
-    return conc_finish(prop, tier, seed, run, wall, rule, explore, we, ("blocks_ge2",), {"max_concurrent_builders": run.counters.get("max_concurrent_builders", 0)})
+    return conc_finish(prop, tier, seed, run, wall, rule, explore, we, ("blocks_ge2", "parallel_build_first"), {"max_concurrent_builders": run.counters.get("max_concurrent_builders", 0)})
 
 # ---------------------------------------------------------------------------------------------------- components (comp_driver)
 class CompCase(PoolCase):
